@@ -133,6 +133,68 @@ def run(ctx):
                 else:
                     ctx.ok(R_grid, {"bound": nm, "arms": len(defs), "form": forms[0][:70]})
 
+    # the MH2O writer lays later layers out by summing VertexDataArray::byte_size(): per variant, one element must count as many
+    # bytes as the vertex type that variant holds (evaluated through whatever helpers / tables byte_size goes through)
+    R_vsz = ctx.rule("C14.mh2o-vertex-array-size-matches-its-vertex-type", "for each VertexDataArray variant, byte_size() with one vertex equals <payload vertex type>::SIZE", floor=4)
+    from .c10 import xval as _xval, _NoEval as _NoEv
+    vda = next((a_ for a_ in adt.items["adts"] if a_["path"].endswith("::VertexDataArray")), None)
+    bs = next((f_ for f_ in adt.fn_list if f_.hir and f_.kind != "Closure" and norm(f_.path).endswith("VertexDataArray::byte_size")), None)
+    if vda is None or bs is None:
+        ctx.bad(R_vsz, "VertexDataArray::byte_size|missing", "-", "enum or function not found", "anchor gone")
+    else:
+        ctx.saw_fn(bs)
+        afns = {g.path: g for g in adt.fn_list if g.hir and g.kind != "Closure"}
+        aconsts = {k_: v_.get("v") for k_, v_ in adt.consts().items()}
+        for v_ in vda.get("variants", []):
+            ty = v_["fields"][0][1] if v_.get("fields") else ""
+            m_ = re.search(r"([\w:]+Vertex)\b", ty)
+            want = aconsts.get((m_.group(1) + "::SIZE")) if m_ else None
+            try:
+                got = _xval(bs.hir["body"], {"self": v_["name"], "__fns__": afns, "__consts__": aconsts, "__leaf__": (lambda r_: 1 if r_.endswith(".len()") else None)})
+            except _NoEv as e:
+                ctx.bad(R_vsz, "byte_size|%s|not-evaluable" % v_["name"], bs.where, "byte_size() not evaluable for %s: %s" % (v_["name"], e), "shape changed")
+                continue
+            if want is None:
+                ctx.note_unarmed(R_vsz, v_["name"], "payload vertex type / SIZE constant not found")
+            elif got == want:
+                ctx.ok(R_vsz, {"variant": v_["name"], "bytes_per_vertex": got})
+            else:
+                ctx.bad(R_vsz, "byte_size|%s" % v_["name"], bs.where, "byte_size() counts %s bytes per vertex for %s; %s::SIZE is %s" % (got, v_["name"], m_.group(1).split("::")[-1], want),
+                        "after a layer in that vertex format every later layer's bitmap and vertex offsets in the same chunk are wrong: the parser reads a wrong exists-bitmap and wrong vertices")
+
+    # whether the MCNK parser reads a sub-chunk is decided by the MCNK header alone (its offset / size fields, through the has_*
+    # helpers) — the serializer writes each sub-chunk whenever the value is present and records exactly that in the header.  A read
+    # guard that also looks at another parsed sub-chunk drops data the writer wrote
+    R_sub = ctx.rule("C14.subchunk-read-decided-by-header-alone", "in McnkChunk::parse_with_offset_and_size every `let <subchunk> = if <guard> {..}` guard reads only the header (and version / size parameters), no previously parsed sub-chunk", floor=10)
+    mp = next((f_ for f_ in adt.fn_list if f_.hir and f_.kind != "Closure" and norm(f_.path).endswith("McnkChunk::parse_with_offset_and_size")), None)
+    if mp is None:
+        ctx.bad(R_sub, "parse_with_offset_and_size|missing", "-", "function not found", "anchor gone")
+    else:
+        ctx.saw_fn(mp)
+        mbody = mp.hir["body"]
+        mlets = {l_["pat"]["name"]: l_["init"] for l_ in hirq.find(mbody, "let") if l_["pat"].get("k") == "bind" and l_.get("init") is not None}
+        sub_names = {nm_ for nm_, in_ in mlets.items() if hirq.strip(in_).get("k") == "if" and re.search(r"header\.has_\w+\(\)", hirq.render(hirq.strip(in_)["c"]))}
+        params_ = {b_ for p_ in mp.hir["params"] for b_ in hirq.pat_binds(p_)}
+
+        def deps(e_, depth=3):
+            out_ = set()
+            for y_ in hirq.walk(e_):
+                if y_.get("k") == "path" and "local" in y_["res"]:
+                    nm_ = y_["res"]["local"]
+                    if nm_ in sub_names:
+                        out_.add(nm_)
+                    elif nm_ in mlets and nm_ not in params_ and nm_ != "header" and depth > 0:
+                        out_ |= deps(mlets[nm_], depth - 1)
+            return out_
+        for nm_ in sorted(sub_names):
+            guard = hirq.strip(mlets[nm_])["c"]
+            d_ = deps(guard) - {nm_}
+            if d_:
+                ctx.bad(R_sub, "parse_with_offset_and_size|%s|depends-on-%s" % (nm_, sorted(d_)[0]), "%s:%d" % (mp.file, guard.get("ln") or 0), "`%s` is read under `%s`, which looks at the parsed sub-chunk `%s`" % (nm_, hirq.render(guard)[:70], sorted(d_)[0]),
+                        "the serializer writes that sub-chunk whenever the value is present: for chunks where the other sub-chunk is absent (or too short) it is written but never read back, and the next save drops it")
+            else:
+                ctx.ok(R_sub, {"subchunk": nm_, "guard": hirq.render(guard)[:50]})
+
     # tracked stream cursors never go stale (typestate over the MIR CFG)
     from .. import cursor as _cursor
     R_cur = ctx.rule("C14.tracked-cursor-never-stale", "a cursor re-read from stream_position() is refreshed after every write through the same writer before it is used as an offset or seek target", floor=1)
